@@ -255,7 +255,7 @@ class CallMixin:
         params = a.posonlyargs + a.args
         env = {}
         args = list(args)
-        if any(isinstance(x, tuple) and len(x) == 2 and x[0] == '*' for x in args):
+        if any(isinstance(x, tuple) and len(x) == 2 and isinstance(x[0], str) and x[0] == '*' for x in args):
             raise Unsupported('call with symbolic *args')
         npos = len(params)
         if len(args) > npos and a.vararg is None:
@@ -452,7 +452,7 @@ class CallMixin:
 
     def apply_external(self, ext, label, recv, args, kwargs, st, fr, node):
         kind = ext.get('kind', 'pure')
-        args = [a[1] if isinstance(a, tuple) and len(a) == 2 and a[0] == '*' else a for a in args]
+        args = [a[1] if isinstance(a, tuple) and len(a) == 2 and isinstance(a[0], str) and a[0] == '*' else a for a in args]
         self.assumptions.add('external %s: %s' % (ext.get('label', label), ext.get('doc', kind)))
         for exc in ext.get('raises', []):
             if exc in self.catching(fr):
@@ -613,7 +613,7 @@ class CallMixin:
             z3.Implies(z3.fpLT(a_abs, b_abs), r == a),
             z3.Implies(z3.fpIsInf(b), r == a)))
         self.add_fact(('fmod', self.counter), facts)
-        self.assumptions.add('fmod(x,y) axioms on Float64: |r|<|y|, sign(r)=sign(x) or r=0, |x|<|y| => r=x')
+        self.assumptions.add('fmod(x,y) axioms on Float64: |r|<|y|, sign(r)=sign(x) or r=0, |x|<|y| => r=x' + ' (an over-approximation of fmod: proofs are sound, counter-models are confirmed by native replay)')
         return r
 
     def call_builtin(self, name, args, kwargs, st, fr, node):
